@@ -19,12 +19,37 @@ TS0 = ep("_test_data_size", "0")
 DC0 = ep("_drift_counter", "0")
 
 
+ISR_COMMON = dict(
+    tags=("C09",), calls={"menelaus.partitioners.KDQTreePartitioner:KDQTreePartitioner": "opaque"},
+    assume_invariant=False, check_invariant=False,
+    # ghost: number of rows of the block the current tree was built from
+    ghost_update=["self.ghost.ref_rows = len(ary)"])
+ISR_STREAM = dict(ISR_COMMON, params={"ary": "NdRows", "input_type": "Str"}, requires=["input_type == 'stream'"],
+                  ensures=["self._kdqtree is not None", "self._critical_dist is not None", "self._test_data_size == 0",
+                           "self._test_dist is None", "self._samples_since_reset == 0", "self._drift_state is None",
+                           "self._drift_counter == 0", "len(self._ref_data) == 0",
+                           "self._total_samples == old(self._total_samples)",
+                           # the bootstrap draws window_size leaves per sample in the streaming case
+                           "self.ghost.boot_n == self.window_size"],
+                  modifies=["_kdqtree", "_critical_dist", "_test_data_size", "_test_dist", "_samples_since_reset", "_drift_state",
+                            "_drift_counter", "_ref_data"])
+# KdqTreeBatch inherits it with the batch counters (reset is BatchDetector.reset + KdqTreeDetector.reset)
+ISR_BATCH = dict(ISR_COMMON, params={"ary": "Nd2", "input_type": "Str"}, requires=["input_type == 'batch'"],
+                 ensures=["self._kdqtree is not None", "self._critical_dist is not None", "self._test_data_size == 0",
+                          "self._test_dist is None", "self._batches_since_reset == 0", "self._drift_state is None",
+                          "self._total_batches == old(self._total_batches)", "len(self._ref_data) == 0",
+                          # ... and as many as the reference has rows in the batch case (C08: leaf counts add up to them)
+                          "self.ghost.boot_n == len(ary)"],
+                 modifies=["_kdqtree", "_critical_dist", "_test_data_size", "_test_dist", "_batches_since_reset", "_drift_state",
+                           "_ref_data"])
+
+
 def register(R):
     f = dict(STREAM_FIELDS)
     f.update({"alpha": "Real", "bootstrap_samples": "Int", "count_ubound": "Int", "cutpoint_proportion_lbound": "Real",
               "window_size": "Int", "persistence": "Real", "_ref_data": "NdRows", "_test_data_size": "Nat",
               "_kdqtree": "Opt[KTree]", "_critical_dist": "Opt[Real]", "_test_dist": "Opt[Real]", "_drift_counter": "Nat"})
-    R.klass(KS, fields=f, ghost={"ref_rows": "Int"}, invariant=STREAM_INV + [
+    R.klass(KS, fields=f, ghost={"ref_rows": "Int", "boot_n": "Int"}, invariant=STREAM_INV + [
         ("C09", "self.window_size >= 1"),
         ("C09", "implies(self._kdqtree is None, len(self._ref_data) < self.window_size)"),
         ("C09", "implies(self._kdqtree is not None, self._critical_dist is not None)"),
@@ -34,24 +59,16 @@ def register(R):
     ])
     # builds the tree and the critical value from the reference window; resets the epoch (proved separately? no: opaque
     # partitioner + bootstrap) -- ASSUMED contract, its effect on the fields is what the code visibly does
-    R.contract(KD + "._inner_set_reference", tags=("C09",), modular=True,
-               params={"ary": "NdRows", "input_type": "Str"},
-               ensures=["self._kdqtree is not None", "self._critical_dist is not None", "self._test_data_size == 0",
-                        "self._test_dist is None", "self._samples_since_reset == 0", "self._drift_state is None",
-                        "self._drift_counter == 0", "len(self._ref_data) == 0",
-                        "self._total_samples == old(self._total_samples)"],
-               modifies=["_kdqtree", "_critical_dist", "_test_data_size", "_test_dist", "_samples_since_reset", "_drift_state",
-                         "_drift_counter", "_ref_data"], check_invariant=False,
-               # ghost: number of rows of the block the current tree was built from
-               ghost_update=["self.ghost.ref_rows = len(ary)"],
-               # KdqTreeBatch inherits it with the batch counters (reset is BatchDetector.reset + KdqTreeDetector.reset)
-               for_class={"KdqTreeBatch": dict(
-                   params={"ary": "Nd2", "input_type": "Str"},
-                   ensures=["self._kdqtree is not None", "self._critical_dist is not None", "self._test_data_size == 0",
-                            "self._test_dist is None", "self._batches_since_reset == 0", "self._drift_state is None",
-                            "self._total_batches == old(self._total_batches)", "len(self._ref_data) == 0"],
-                   modifies=["_kdqtree", "_critical_dist", "_test_data_size", "_test_dist", "_batches_since_reset", "_drift_state",
-                             "_ref_data"])})
+    # the Monte-Carlo critical value: ASSUMED (a real number, nothing modified); the bounded tier re-draws it under the seed
+    R.contract(KD + "._get_critical_kld", tags=("C09",), modular=True, params={"ref_counts": "List[Nat]", "sample_size": "Int"},
+               result="Real", ensures=[], modifies=[], check_invariant=False, assume_invariant=False,
+               ghost_update=["self.ghost.boot_n = sample_size"])
+    # _inner_set_reference is inherited by both detectors; its effect is stated per receiver class (counter names
+    # differ) and VERIFIED per receiver class below (targets KS/KB + "._inner_set_reference"); call sites use this entry.
+    R.contract(KD + "._inner_set_reference", modular=True, verified_by=[KS + "._inner_set_reference", KB + "._inner_set_reference"],
+               for_class={"KdqTreeBatch": dict(ISR_BATCH)}, **ISR_STREAM)
+    R.contract(KS + "._inner_set_reference", **ISR_STREAM)
+    R.contract(KB + "._inner_set_reference", **ISR_BATCH)
     REJECT = ("(is_df(X) and self._input_cols is not None and not cols_equal(cols(X), self._input_cols)) or "
               "((not is_df(X)) and self._input_col_dim is not None and width(X) != self._input_col_dim) or rows(X) != 1")
     R.contract(KS + ".update", tags=("C09", "C01"), params={"X": "RawX", "y_true": "RawY", "y_pred": "RawY"},
@@ -101,7 +118,7 @@ def register_batch(R):
     f.update({"alpha": "Real", "bootstrap_samples": "Int", "count_ubound": "Int", "cutpoint_proportion_lbound": "Real",
               "_ref_data": "NdRows", "_test_data_size": "Nat", "_kdqtree": "Opt[KTree]", "_critical_dist": "Opt[Real]",
               "_test_dist": "Opt[Real]", "ref_data": "Nd2"})
-    R.klass(KB, fields=f, ghost={"ref_rows": "Int"}, invariant=[
+    R.klass(KB, fields=f, ghost={"ref_rows": "Int", "boot_n": "Int"}, invariant=[
         ("C01", "self._drift_state is None or self._drift_state == 'drift'"),
         ("C01", "0 <= self._batches_since_reset and self._batches_since_reset <= self._total_batches"),
         ("C09", "implies(self._kdqtree is not None, self._critical_dist is not None)"),
